@@ -327,6 +327,37 @@ def run_frame_writers(ctx, only_encrypted=False):
     return n
 
 
+def run_login_writers(ctx):
+    """frame.login-writers: the public write / tokio_write / astd_write of every login message hand the transport exactly the
+    bytes write_into_vec produced (opcode byte + body), once"""
+    from ..framew import analyse_writer
+    st = state()
+    g = st["g"]
+    F = g.f("wow_login_messages")
+    n = 0
+    for fn in F.all("fn"):
+        if fn["name"] not in ("write", "tokio_write", "astd_write") or " as crate::Message>::" not in fn["path"]:
+            continue
+        n += 1
+        key0 = gpath("wow_login_messages", fn["path"])
+        res = analyse_writer(g, "wow_login_messages", fn, "login", "login", 0xFFFF)
+        for lo, hi, s, err in res:
+            rng = f"{lo:#x}..{hi:#x}" if lo != hi else f"{lo:#x}"
+            if err:
+                ctx.violate("frame.login-writers", f"{key0}|shape", f"{fn['path']}: {err}", fn["file"], fn["line"])
+                break
+            for kind, msg in s.events:
+                ctx.violate("frame.login-writers", f"{key0}|{kind}", f"{fn['path']}, encoded length {rng}: {msg}", fn["file"], fn["line"])
+            if s.events:
+                continue
+            t = s.transport[2][0] if s.transport is not None else None
+            if t is None or (t[1], t[2]) != (1, 0):
+                got = f"{t[1]}*N+{t[2]}" if t is not None else "no"
+                ctx.violate("frame.login-writers", f"{key0}|bytes", f"{fn['path']}, encoded length N in {rng}: {got} bytes reach the transport, write_into_vec produced N (opcode byte + body)", fn["file"], fn["line"])
+    ctx.rule("frame.login-writers", n, floor=90, note="login write / tokio_write / astd_write wrappers: bytes handed to the transport = bytes produced by write_into_vec")
+    return n
+
+
 # ----------------------------------------------------------------------------------------------
 # hand-written header structs: byte placement (C02-D2(e), reader side) by abstract interpretation
 # ----------------------------------------------------------------------------------------------
